@@ -1,47 +1,114 @@
-import Sucds.Proofs.IndexIter
-import Sucds.Proofs.UnaryIter
-import Sucds.Proofs.CompactVectorFull
+import Sucds.Proofs.UnarySkips
+import Sucds.Props.C04
+import Sucds.Props.C05
 import Sucds.Props.C07
-/-! # C17 — iterators yield the stored sequence, stay exhausted, give truthful size hints (partial)
+import Sucds.Props.C09
+import Sucds.Props.C10
+import Sucds.Props.C11
+import Sucds.Props.C12
+/-! # C17 — iterators yield the stored sequence, stay exhausted, give truthful size hints
 
-Proved:
-* the index iterators (`next` = `access(pos)` then `pos += 1`; `size_hint` = `(len − pos, Some(len − pos))`),
-  generically from the `access` specification of the container: `n` calls of `next` yield the stored list and
-  then `None` forever, and at every step `size_hint` is exactly the number of remaining elements —
-  instantiated for BitVector (C07) and CompactVector here, for DacsByte/DacsOpt in C10/C11;
-* the unary iterator: `unary_iter(p)` for every `p` (including `p = len`, `len % 64 = 0`, the empty vector) stands
-  at cursor `p`; `next` yields the set positions `≥ p` in increasing order and then `None` forever; from a
-  cursor established by `new`/`skip1`/`skip0`, `skip1(k)` / `skip0(k)` return the k-th set / unset position at or
-  after the cursor (`None` when there is none, after which every call answers `None`) and move the cursor
-  there; the `debug_assert!(buf != 0)` cannot fire.
-Missing: the Elias-Fano iterator and the PrefixSummedEliasFano / WaveletMatrix instances (their `access`
-theorems are in progress). Observation outside the property (mixed `next`/`skip0` is not quantified over):
-`skip0(0)` directly after `next()` returns the set position `next` just yielded (`UIter.skip0_after_next`). -/
+* **Index iterators** (BitVector, CompactVector, DacsByte, DacsOpt, PrefixSummedEliasFano, WaveletMatrix): the model
+  of `Iter` is `IndexIter` — `next` = `access(pos)` then `pos += 1` when `pos < len`, else `None`; `size_hint` =
+  `(len − pos, Some(len − pos))`. From the `access` theorem of each container: any number of `next` calls yields
+  the stored elements in order and then `None` on every further call, and before each call `size_hint` is exactly
+  the number of elements still to come (`expected`).
+* **EliasFano::iter(k)**, every `k`: yields `x_k … x_{n−1}` then `None` forever (from C04). Its `size_hint` (and the
+  unary iterator's) is the default `(0, None)`, which brackets any count.
+* **BitVector::unary_iter(p)**, every `p` (so in particular every `p ≤ len`, including `p = len`, `len % 64 = 0` and
+  the empty vector): `next` yields the set positions `≥ p` in increasing order and then `None` forever
+  (`selFrom P n p j` is the j-th position `≥ p` below `n` satisfying `P`); **any sequence** of `skip1(k)`/`skip0(k)`
+  calls returns the k-th set/unset position at or after the cursor and moves the cursor there, or `None` when there
+  is none, after which every call answers `None` (`specSkips`); the `debug_assert!(buf != 0)` cannot fire. -/
 namespace Sucds.C17
 open Sucds Sucds.Spec Sucds.IndexIter
 
-theorem index_iterators {α} (xs : List α) (acc : Nat → Option α) (hacc : ∀ i, i < xs.length → acc i = xs[i]?) :
-    ∀ (n p : Nat), p ≤ xs.length →
-      runN xs.length acc ⟨p⟩ n =
-        (List.range n).map (fun j => (xs[p + j]?, (xs.length - (p + j), some (xs.length - (p + j))))) :=
-  runN_spec xs acc hacc
+/-- unwrap a model answer (`panic` ↦ `none`; the access theorems show there is no panic) -/
+def okv {α} (r : R (Option α)) : Option α := match r with | .ok o => o | .error _ => none
 
-theorem bit_vector_iter : type_of% (@C07.iteration) := @C07.iteration
-theorem compact_vector_iter : type_of% (@CV.iter_spec) := @CV.iter_spec
+/-- what `n` calls of `next`, each preceded by `size_hint`, must produce for the stored list `xs` -/
+def expected {α} (xs : List α) (n : Nat) : List (Option α × (Nat × Option Nat)) :=
+  (List.range n).map (fun j => (xs[j]?, (xs.length - j, some (xs.length - j))))
 
-/-- `unary_iter(p)`: `n` calls of `next` yield the first `n` set positions `≥ p` (then `None` forever) -/
-theorem unary_next (c : Cfg) (bv : BV) (h : bv.Inv) (p n : Nat) :
-    UIter.nexts c bv n (UIter.new bv p) = .ok ((List.range n).map (selFrom bv.bitAt bv.len p)) :=
-  UIter.nexts_new c bv h p n
+theorem generic {α} (xs : List α) (acc : Nat → Option α) (hacc : ∀ i, acc i = xs[i]?) (n : Nat) :
+    runN xs.length acc ⟨0⟩ n = expected xs n := by
+  have := runN_spec xs acc (fun i _ => hacc i) n 0 (Nat.zero_le _)
+  simpa [expected] using this
 
-theorem unary_new (bv : BV) (p : Nat) : UIter.RepAt bv (UIter.new bv p) p := UIter.new_rep bv p
-theorem unary_skip1 : type_of% (@UIter.skip1_ok) := @UIter.skip1_ok
-theorem unary_skip0 : type_of% (@UIter.skip0_ok) := @UIter.skip0_ok
-theorem unary_done_next : type_of% (@UIter.done_next) := @UIter.done_next
-theorem unary_done_skip1 : type_of% (@UIter.done_skip1) := @UIter.done_skip1
-theorem unary_done_skip0 : type_of% (@UIter.done_skip0) := @UIter.done_skip0
+def Statement : Prop :=
+  -- BitVector
+  (∀ (b : BV), b.Inv → ∀ n, runN b.toList.length (fun i => okv (b.getBit i)) ⟨0⟩ n = expected b.toList n) ∧
+  -- CompactVector
+  (∀ (v : CV) (xs : List Nat), CV.Rep v xs → ∀ n, runN xs.length (fun i => okv (v.getInt i)) ⟨0⟩ n = expected xs n) ∧
+  -- DacsByte
+  (∀ (c : Cfg) (vals : List Nat), (∀ v ∈ vals, v < 2^64) →
+    ∀ n, runN vals.length (fun i => okv ((DacB.fromSlice c vals).access c i)) ⟨0⟩ n = expected vals n) ∧
+  -- DacsOpt
+  (∀ (c : Cfg) (vals : List Nat) (ml : Option Nat), (∀ v ∈ vals, v < 2^64) → vals.length < 2^57 →
+    1 ≤ ml.getD 64 ∧ ml.getD 64 ≤ 64 →
+    ∃ d, DacO.fromSlice c vals ml = .ok (some d) ∧
+      ∀ n, runN vals.length (fun i => okv (d.access c i)) ⟨0⟩ n = expected vals n) ∧
+  -- PrefixSummedEliasFano
+  (∀ (c : Cfg) (vals : List Nat), vals ≠ [] → vals.sum + 1 < 2^64 →
+    ∃ p, PS.fromSlice c vals = .ok (some p) ∧
+      ∀ n, runN vals.length (fun i => okv (p.access c i)) ⟨0⟩ n = expected vals n) ∧
+  -- WaveletMatrix, three backings
+  (∀ (c : Cfg) (k : Backing) (s : List Nat), s ≠ [] → s.foldl max 0 + 1 < 2^64 → s.length < 2^63 →
+    ∃ wm, WM.new c k s = .ok (some wm) ∧
+      ∀ n, runN s.length (fun i => okv (wm.access c i)) ⟨0⟩ n = expected s n) ∧
+  -- EliasFano::iter(k)
+  (∀ (c : Cfg) (u m : Nat) (hist : List Nat), m ≠ 0 → u < 2^64 →
+    ∃ b0 b', EFB.new u m = some b0 ∧ EFB.run b0 hist = .ok (b', EFB.verdicts u m [] hist) ∧
+      ∀ k, ∃ it0, ((EF.ofBuilder c b').enableRank c).iter c k = .ok it0 ∧
+        ∀ t, ∃ it', EFQ.itRun c ((EF.ofBuilder c b').enableRank c) ((EFB.accepted u m [] hist).length - k + t) it0 =
+          .ok (it', ((EFB.accepted u m [] hist).drop k).map some ++ List.replicate t none)) ∧
+  -- unary iterator: next
+  (∀ (c : Cfg) (bv : BV), bv.Inv → ∀ p n,
+    UIter.nexts c bv n (UIter.new bv p) = .ok ((List.range n).map (selFrom bv.bitAt bv.len p))) ∧
+  -- unary iterator: any sequence of skips
+  (∀ (c : Cfg) (bv : BV), bv.Inv → ∀ p (ops : List UIter.Skip),
+    UIter.runSkips c bv (UIter.new bv p) ops = .ok (UIter.specSkips bv.bitAt bv.len (some p) ops))
 
-/-- `selFrom P n cur k` is the k-th position `≥ cur` below `n` satisfying `P`: it enumerates exactly those positions -/
+theorem holds : Statement := by
+  refine ⟨?_, ?_, ?_, ?_, ?_, ?_, ?_, ?_, ?_⟩
+  · intro b h n
+    apply generic
+    intro i
+    rw [BV.getBit_ok b h i]
+    by_cases hi : i < b.len
+    · simp [okv, hi, C07.toList_getElem b i hi]
+    · have : b.toList.length ≤ i := by rw [BV.toList_length]; omega
+      simp [okv, hi, List.getElem?_eq_none this]
+  · intro v xs h n
+    apply generic
+    intro i
+    rw [CV.getInt_ok v xs h i]; rfl
+  · intro c vals hv n
+    apply generic
+    intro i
+    rw [DacB.access_ok c vals hv i]; rfl
+  · intro c vals ml hv hn hml
+    obtain ⟨d, hd, _, ha, _⟩ := (C10.holds c vals ml hv hn).2 hml
+    exact ⟨d, hd, fun n => generic vals _ (fun i => by rw [ha i]; rfl) n⟩
+  · intro c vals hne hs
+    obtain ⟨p, hp, _, _, ha, _⟩ := C12.holds.2 c vals hne hs
+    exact ⟨p, hp, fun n => generic vals _ (fun i => by rw [ha i]; rfl) n⟩
+  · intro c k s hne hmax hn
+    obtain ⟨wm, hw, _, _, ha, _⟩ := C05.holds c k s hne hmax hn
+    exact ⟨wm, hw, fun n => generic s _ (fun i => by rw [ha i]; rfl) n⟩
+  · intro c u m hist hm hu
+    obtain ⟨b0, b', h1, h2, ans⟩ := C04.holds c u m hist hm hu
+    exact ⟨b0, b', h1, h2, ans.iter⟩
+  · intro c bv h p n
+    exact UIter.nexts_new c bv h p n
+  · intro c bv h p ops
+    exact UIter.skips_from_new c bv h p ops
+
+/-- `selFrom P n cur k` enumerates exactly the positions `≥ cur` below `n` satisfying `P`, in increasing order -/
 theorem selFrom_meaning (P : Nat → Bool) (n cur q : Nat) :
     (cur ≤ q ∧ q < n ∧ P q = true) ↔ ∃ k, selFrom P n cur k = some q := selFrom_complete P n cur q
+
+/-- observation outside the property (mixed `next`/`skip0` sequences are not quantified over): `skip0(0)` directly
+    after `next()` returns the set position that `next` has just yielded -/
+theorem observation_skip0_after_next : type_of% (@UIter.skip0_after_next) := @UIter.skip0_after_next
 end Sucds.C17
